@@ -2,6 +2,7 @@ package props
 
 import (
 	"fmt"
+	"math"
 	"strings"
 
 	"github.com/boombuler/barcode/utils"
@@ -361,14 +362,28 @@ func (p c18) Exec(c *fw.Ctx, u *fw.Unit) {
 				h.model = append(h.model, bits...)
 			case op < 50:
 				cnt := r.Intn(65)
+				if r.Intn(8) == 0 {
+					cnt = 65 + r.Intn(191) // count is a byte: up to 255 bits
+				}
 				v := int(r.Uint64())
 				if r.Intn(4) == 0 {
 					v = -v
 				}
+				if r.Intn(16) == 0 {
+					v = []int{-1, 0, 1, math.MinInt64, math.MaxInt64, -2}[r.Intn(6)]
+				}
 				h.trace = append(h.trace, fmt.Sprintf("addbits(%d,%d)", v, cnt))
 				h.guardOp("AddBits", func() { h.bl.AddBits(v, byte(cnt)) })
 				for i := cnt - 1; i >= 0; i-- {
-					h.model = append(h.model, (uint64(v)>>uint(i))&1 == 1)
+					// two's complement: bit i of an int, the sign for i >= 63
+					if i >= 63 {
+						h.model = append(h.model, v < 0)
+					} else {
+						h.model = append(h.model, (uint64(v)>>uint(i))&1 == 1)
+					}
+				}
+				if cnt > 64 {
+					c.Cover("addbits_count_above_64", fmt.Sprint(v < 0))
 				}
 			case op < 65:
 				b := byte(r.Intn(256))
@@ -439,7 +454,7 @@ func (p c18) Exec(c *fw.Ctx, u *fw.Unit) {
 
 func (c18) Assumptions() []string {
 	return []string{
-		"operations are used inside their documented domain: indices below Len, AddBits count <= 64",
+		"operations are used inside their documented domain: indices below Len; AddBits counts go up to 255 (the count is a byte) and bits above position 62 are the two's-complement sign of the int",
 		"the reduced alphabet of the exhaustive part (11 operations, 6 start states) is representative for short histories; long histories are sampled, not enumerated",
 	}
 }
